@@ -523,6 +523,20 @@ def call_result_json(tb, call):
     return jsonable([out, exact(tree, tb), er])
 
 
+def render_doc(doc, frag, tb, opts, enc):
+    """parse with the module-level functions, walk, render with a new HTMLSerializer(**opts); returns repr of what came out"""
+    import html5lib
+    from html5lib import treewalkers
+    from html5lib.serializer import HTMLSerializer
+    try:
+        tree = html5lib.parseFragment(doc, treebuilder=tb) if frag else html5lib.parse(doc, treebuilder=tb)
+        s = HTMLSerializer(**opts)
+        out = s.render(treewalkers.getTreeWalker(tb)(tree), enc)
+        return repr((out, list(s.errors)))
+    except (Exception, RecursionError) as e:
+        return "crash:" + type(e).__name__
+
+
 def _sub_main():
     import json
     import sys
@@ -531,7 +545,11 @@ def _sub_main():
         if not line:
             continue
         req = json.loads(line)
-        print(json.dumps(call_result_json(req["tb"], req["call"])))
+        if "render" in req:
+            r = req["render"]
+            print(json.dumps(render_doc(r["doc"], r["frag"], r["tb"], r["opts"], r["enc"])))
+        else:
+            print(json.dumps(call_result_json(req["tb"], req["call"])))
         sys.stdout.flush()
 
 
